@@ -119,7 +119,7 @@ func printResult(r *HarnessResult) {
 		fmt.Printf("  note x%d: %s\n", c, n)
 	}
 	for _, v := range r.Violations {
-		fmt.Printf("  CANDIDATE %s | %s\n     nondet=%s\n", v.Signature(), firstLine(v.Msg), hexVec(v.Nondet, 120))
+		fmt.Printf("  CANDIDATE %s | %s\n     nondet=%s\n     obs=%v\n", v.Signature(), firstLine(v.Msg), hexVec(v.Nondet, 120), v.Obs)
 	}
 	for _, smp := range r.Samples {
 		fmt.Printf("  sample: %s\n", smp)
